@@ -10,12 +10,7 @@
 (***************************************************************************)
 EXTENDS Builder
 
-NormPrefix(q) == IF q # <<>> /\ q[Len(q)] = SLASH THEN q ELSE q \o <<SLASH>>
-StripOne(s, prefixes) ==
-    LET hits == {i \in DOMAIN prefixes : HasPrefix(s, NormPrefix(prefixes[i]))} IN
-    IF hits = {} THEN s
-    ELSE LET i == CHOOSE x \in hits : \A y \in hits : x <= y IN
-         SubSeq(s, Len(NormPrefix(prefixes[i])) + 1, Len(s))
+StripOne(s, prefixes) == StripFirst(s, prefixes)          \* Builder!StripFirst: first listed prefix that matches
 
 HasContents(b, id) == id + 1 <= Len(b.contents) /\ b.contents[id + 1] # <<>>
 
